@@ -32,8 +32,8 @@ WORLDS = {
 
 # sessions per quick run (tuned to roughly a minute on 16 cores)
 QUICK_SESSIONS = {
-    'C01': 1600, 'C02': 700, 'C03': 1600, 'C04': 1000, 'C05': 4000, 'C08': 400, 'C09': 320, 'C10': 320,
-    'C11': 1200, 'C12': 1000, 'C13': 1000, 'C14': 1600, 'C15': 1600, 'C16': 4000, 'C17': 4000, 'C19': 1400, 'C20': 900,
+    'C01': 12000, 'C02': 5000, 'C03': 14000, 'C04': 9000, 'C05': 20000, 'C08': 1600, 'C09': 800, 'C10': 1400,
+    'C11': 10000, 'C12': 8000, 'C13': 8000, 'C14': 7000, 'C15': 6000, 'C16': 20000, 'C17': 16000, 'C19': 12000, 'C20': 5000,
 }
 CHUNK = {'tn': 8, 'gr': 50, 'kr': 40}
 
